@@ -392,11 +392,7 @@ func bubble(c *explore.Ctx, u unit, horizon int, root string) (out outcome) {
 			addTag("crash")
 			n.Fate.Die()
 		}
-		menuN := int(world.NumSubmitAnswersWithLoss)
-		if os.Getenv("C06_MENU8") != "" { // TEMP
-			menuN = 8
-		}
-		a := world.SubmitAnswer(c.Choose("da", menuN)) // the 8 answers, or no answer at all
+		a := world.SubmitAnswer(c.Choose("da", int(world.NumSubmitAnswersWithLoss))) // the 8 answers, or no answer at all
 		if a == world.SubmitNoAnswer {
 			lostCalls++
 		}
@@ -530,8 +526,11 @@ func bubble(c *explore.Ctx, u unit, horizon int, root string) (out outcome) {
 		checkWatermarks("after the lost-request horizon")
 	}
 	// a cancelled loop may win one more select round against ctx.Done() (Go picks at random); when the run ends inside
-	// the fault phase (a violation was found) that round must not consume decision points
+	// the fault phase (a violation was found) that round must not consume decision points — nor may it put anything
+	// on the DA layer after the end of the accepting phase (a loop that is still parked in an unanswered call has a
+	// ticker tick waiting for it): the process is frozen at its next environment call
 	armed = false
+	n.Fate.Kill()
 	cancel()
 	synctest.Wait()
 	if fail == nil {
